@@ -23,6 +23,24 @@ def run(c: Check):
     for e in ev:
         if e["ev"] != "Reset":
             c.count_case((e["beh"], e["ev"], e["m"], e.get("src", "")), nontrivial=e["ev"] in ("Clone", "Dispose"))
+    # the same ownership rule one level up: responses of the ECS cache kept in use and released in random order
+    outl, _ = c.go_harness("internal/ecscache", "^TestVerifC07EcsLive$", files=["c07live_test.go"],
+                           env={"VERIF_NBEH": 200 if th else 20, "VERIF_NSTEPS": 80 if th else 60})
+    evl = read_ndjson(outl)
+    whats = set(e["what"].rsplit(" ", 1)[0] for e in evl if e["ev"] == "New")
+    if not {"declined v4", "declined v6", "subnet v4", "OPT only", "no option"} <= whats or sum(1 for e in evl if e["ev"] == "Dispose") < 50:
+        raise Undecided("ECS-cache ownership leg vacuous: request kinds %s" % sorted(whats))
+    for sg, idx, reason in c.validate_segments("TraceMsgPool", "TraceMsgPool.cfg", evl, timeout=1800):
+        e = sg[idx]
+        hist = [(x["ev"], x["m"], x.get("what", "")) for x in sg[1:idx + 1]]
+        c.violation({"kind": "ecscache-ownership", "ev": e["ev"], "damaged": bool(e["damaged"])},
+                    "C07 responses of the ECS cache in use at the same time (%s) at %s m=%s (%s) damaged=%s: two messages in use "
+                    "own the same object, or a message in use changed; history %s" % (
+                        reason, e["ev"], e["m"], e.get("what"), e["damaged"], hist[-10:]),
+                    {"segment": [{k: x.get(k) for k in ("ev", "m", "what", "objs", "damaged")} for x in sg[:idx + 1]], "last": e})
+    for e in evl:
+        if e["ev"] != "Reset":
+            c.count_case(("ecslive", e["beh"], e["ev"], e["m"], e.get("what", "")), nontrivial=True)
     try:
         out2, o2 = c.go_harness("internal/dnssvc", "^TestVerifC07Stack$", files=["c07_test.go"], race=True,
                                 env={"VERIF_PER": 400 if th else 120, "VERIF_ROUNDS": 4 if th else 2}, timeout=2400)
